@@ -17,7 +17,10 @@ from btclib.curves import mult, secp256k1
 from btclib.curves import curve as _curve
 from btclib.descriptors import descriptors as D
 from btclib.script import taproot as T
-from btclib.script.engine import taproot_unwrap_script
+from btclib.script.engine import taproot_unwrap_script, verify_input
+from btclib.script.engine.flags import ALL_FLAGS, ScriptFlag
+from btclib.script.witness import Witness
+from btclib.tx import OutPoint, Tx, TxIn, TxOut
 
 from . import common, shared
 from .common import hx, unhx
@@ -522,6 +525,58 @@ def _o_keypath(w):
     return f"{d2:064x}" == v["intermediary"]["tweakedPrivkey"], f"{d2:064x}"
 
 
+def _spend(q, stack, flags=None):
+    """verify_input on a real one-input transaction spending the p2tr output `OP_1 q` with this witness"""
+    prev = [TxOut(1000, b"\x51\x20" + q, check_validity=False)]
+    tx = Tx(2, 0, [TxIn(OutPoint(b"\x01" * 32, 0), b"", 0, Witness(list(stack)))], [TxOut(900, b"\x51\x20" + bytes(32), check_validity=False)])
+    try:
+        verify_input(prev, tx, 0, flags)
+    except Exception as e:  # noqa: BLE001
+        c = common.err_class(e)
+        return "rejected" if c in ("value", "script") else "bad:" + c + ":" + str(e)[:80]
+    return "accepted"
+
+
+def _o_engine(w):
+    """through engine.verify_input, for ANY leaf version: the honest script-path spend is accepted (refused only
+    under DISCOURAGE_UPGRADABLE_TAPROOT_VERSION for a version other than 0xC0; a control block starting 0x50
+    needs an explicit annex), and every single-bit alteration of control block / script / output key is rejected"""
+    tree = tree_of(w["tree"])
+    sec = bytes.fromhex(w["sec"])
+    rng = __import__("random").Random(w.get("seed", 0))
+    cap = w.get("cap")
+    n = 0
+    disc = ALL_FLAGS | ScriptFlag.DISCOURAGE_UPGRADABLE_TAPROOT_VERSION
+    with arm(w["arm"]):
+        q, _ = T.output_pubkey(sec, tree)
+        script, c = T.input_script_sig(sec, tree, w["idx"])
+        s = T.serialize(list(script))
+        version = c[0] & 0xFE
+        for annex in ([], [b"\x50" + bytes.fromhex(w.get("annex", "00"))]):
+            ambiguous = not annex and c[:1] == b"\x50"
+            r = _spend(q, [s, c, *annex])
+            if r != ("rejected" if ambiguous else "accepted"):
+                return False, f"honest spend, leaf version {version:#x}, annex={bool(annex)}: {r}"
+            r = _spend(q, [s, c, *annex], disc)
+            if r != ("accepted" if version == 0xC0 and not ambiguous else "rejected"):
+                return False, f"honest spend under DISCOURAGE_UPGRADABLE, leaf version {version:#x}, annex={bool(annex)}: {r}"
+            n += 2
+            fields = (("control", c), ("script", s), ("q", q)) if annex else (("control", c),)
+            for name, val in fields:
+                bits = list(range(8 * len(val)))
+                if cap and len(bits) > cap:
+                    bits = [b for b in bits if b < 8] + rng.sample(bits, cap)
+                for i in bits:
+                    alt = _flip(val, i)
+                    qq, ss, cc = (alt if name == "q" else q), (alt if name == "script" else s), (alt if name == "control" else c)
+                    r = _spend(qq, [ss, cc, *annex])
+                    n += 1
+                    if r != "rejected":
+                        return False, (f"leaf version {version:#x}, annex={bool(annex)}: {name} bit {i} flipped -> {r} "
+                                       f"(q={qq.hex()} script={ss.hex()} control={cc.hex()[:200]})")
+    return True, f"leaf version {version:#x}: {n} spends"
+
+
 def _guard(fn):
     """an oracle that raises has found something: the real code left through an exception it should not"""
     def g(w):
@@ -535,7 +590,7 @@ def _guard(fn):
 
 ORACLES = {"cb.proves": _o_proves, "cb.bitflip": _o_bitflip, "tweak.agree": _o_agree, "key.refused": _o_refuse,
            "tweak.range": _o_tweak_range, "backends.agree": _o_backends, "desc.tr": _o_desc, "bip341.vector": _o_bip341,
-           "bip341.keypath": _o_keypath}
+           "bip341.keypath": _o_keypath, "engine.spend": _o_engine}
 ORACLES = {k: _guard(v) for k, v in ORACLES.items()}
 
 
@@ -728,8 +783,49 @@ def run(ctx):
         for dg in (N, N + 1, 2 ** 256 - 1, N - 1, 1):
             ctx.check("tweak.range", {"digest": f"{dg:064x}", "d": str(d), "tree": stk, "arm": a, "sec": sec})
 
-    # descriptors and BIP86
-    shapes = [None, 0, (0, 1), (0, (1, 2)), ((0, 1), 2), ((0, 1), (2, 3)), (0, (1, (2, (3, 4)))), ((0, 0), (0, 0))]
+    # the commitment is checked by the ENGINE for every leaf version (only the execution is version-gated)
+    def eng_case(v):
+        target = [(v + rng.choice([0, 0, 1]), ["OP_1"])]      # an odd spelling is masked by the library
+        other = lambda: [(rng.choice([0xC0, 0xC2, v]), [rng.choice(["OP_1", "OP_2", "OP_DUP"])])]  # noqa: E731
+        shape = rng.randrange(4)
+        if shape == 0:
+            return target, 0
+        if shape == 1:
+            return [target, other()], 0
+        if shape == 2:
+            return [other(), target], 1
+        return [other(), [target, other()]], 1
+    evens = list(range(0, 256, 2))
+    if ctx.tier == "quick":
+        vs = [0xC0, 0xC2, 0x50, 0x52, 0x4E, 0x00, 0xFE, 0x7E, 0x66, 0xBE] + rng.sample(evens, 6)
+    else:
+        vs = evens + [0xC0, 0x50, 0x50, 0x50]
+    for v in vs:
+        tr, i = eng_case(v)
+        d = rng.randrange(1, N)
+        ctx.count("engine leaf version", "0xc0" if v == 0xC0 else "0x50" if v == 0x50 else "other")
+        ctx.check("engine.spend", {"tree": tok_of(tr), "idx": i, "sec": rng.choice(spellings(rng, d))[1].hex(), "arm": "lib",
+                                   "annex": common.rand_bytes(rng, rng.randrange(1, 5)).hex(), "seed": rng.randrange(2 ** 32)})
+    # parity of the output key decides whether a 0x50 leaf gives a control block that looks like an annex: both
+    for par_want in (0, 1):
+        for _ in range(64):
+            d = rng.randrange(1, N)
+            sec = spellings(rng, d)[0][1]
+            tr, i = eng_case(0x50)
+            if T.output_pubkey(sec, tr)[1] == par_want:
+                ctx.count("engine 0x50 control[0]", hex(0x50 + par_want))
+                ctx.check("engine.spend", {"tree": tok_of(tr), "idx": i, "sec": sec.hex(), "arm": "lib", "annex": "aa",
+                                           "seed": rng.randrange(2 ** 32)})
+                break
+    for v in rng.sample(vs, ctx.n(2, 10)) + [0xC0, 0x50]:
+        tr, i = eng_case(v)
+        d = rng.randrange(1, N)
+        ctx.check("engine.spend", {"tree": tok_of(tr), "idx": i, "sec": rng.choice(spellings(rng, d))[1].hex(), "arm": "py",
+                                   "annex": "00", "cap": ctx.n(24, 60), "seed": rng.randrange(2 ** 32)})
+
+    # descriptors and BIP86 (duplicated leaves and identical subtrees included)
+    shapes = [None, 0, (0, 1), (0, 0), (0, (1, 2)), ((0, 1), 2), ((0, 1), (2, 3)), (0, (1, (2, (3, 4)))), ((0, 0), (0, 0)),
+              ((0, 1), (0, 1)), (2, (1, 1)), ((1, 1), 2), (((3, 3), (3, 3)), ((3, 3), (3, 3)))]
     for _ in range(ctx.n(1, 6)):
         for shape in shapes:
             ks = [f"{mult(rng.randrange(1, N))[0]:064x}" for _ in range(5)]
